@@ -51,6 +51,9 @@ structure Params where
   clientEcdheGuard : Bool
   /-- the client appends its encryption certificate only after a signing certificate (F36 repaired) -/
   encCertNeedsSig : Bool
+  /-- `checkForResumption` honours the client-authentication policy and `doResumeHandshake`
+  re-checks the recorded client certificates (F6 repaired) -/
+  resumeHonoursPolicy : Bool
   /-- `Config` fields that `Clone` does not copy -/
   cloneMissing : List String
   deriving DecidableEq, Repr
@@ -83,6 +86,10 @@ structure Session where
   /-- the certificates the server recorded for the client -/
   serverPeer : List CertSym
   deriving DecidableEq, Repr
+
+def isOk {ε α} : Except ε α → Bool
+  | .ok _ => true
+  | .error _ => false
 
 /-! ### Config.Clone -/
 
@@ -314,6 +321,9 @@ def serverHasCerts (s : ServerCfg) : Bool :=
 /-- `checkForResumption` given the session the client offered and the server still holds -/
 def serverResumes (p : Params) (k : KeyFlags) (s : ServerCfg) (vers : Nat) (offered : List Nat)
     (sess : Session) : Bool :=
+  let sessionHasClientCerts := decide (sess.serverPeer.length ≠ 0)
+  !(p.resumeHonoursPolicy && requiresClientCert p s.auth && !sessionHasClientCerts) &&
+  !(p.resumeHonoursPolicy && sessionHasClientCerts && authVal p s.auth == authVal p .noClientCert) &&
   vers == sess.vers && offered.contains sess.suite &&
   (selectCipherSuite p [sess.suite] (configSuites p s.suites) (cipherSuiteOk p k)).isSome
 
@@ -353,6 +363,8 @@ def handshake (p : Params) (sess : Option Session) (c0 : ClientCfg) (s0 : Server
     if !mutualCipherSuite p offered ss.suite then .error .clientSuite
     else if !checkALPN c.alpn proto then .error .clientALPN
     else if ss.vers != vers then .error .resumeMismatch
+    -- doResumeHandshake re-runs processCertsFromClient on the recorded certificates
+    else if p.resumeHonoursPolicy && !isOk (serverCheckCerts p c s ss.suite ss.serverPeer true) then .error .certVerify
     else
       .ok { client := { vers := vers, suite := ss.suite, alpn := proto, resumed := true,
                         peerCerts := ss.clientPeer, serverName := c.serverName },
@@ -388,9 +400,5 @@ def sessionOf (a : Agreed) : Session :=
 /-- the next handshake with the same configuration objects -/
 def negotiateNext (p : Params) (c : ClientCfg) (s : ServerCfg) (first : Agreed) : Except Failure Agreed :=
   handshake p (some (sessionOf first)) c s
-
-def isOk {ε α} : Except ε α → Bool
-  | .ok _ => true
-  | .error _ => false
 
 end Gotlcp.Model.Negotiate
